@@ -15,7 +15,7 @@ for k in ('LBZIP2', 'BZIP2', 'BZIP'):
 def _common_opts(stdin_path=None, policy='P0', renv=None, wenv=None, sigs=None, spurious=0,
                  rfrag=0, wfrag=0, ign_sigpipe=False, setenv=None, heap_limit=0, timeout=None,
                  argv0=None, chdir=None, fork=False, horizon=0, env_all_fds=False, cpu_base=0,
-                 fs_template=None, fs_work=None, fenv=None, senv=None, inherit_mask=None, nprio=0):
+                 fs_template=None, fs_work=None, fenv=None, senv=None, inherit_mask=None, nprio=0, demote=0):
     o = []
     if stdin_path: o += ['--stdin', stdin_path]
     o += ['--policy', policy]
@@ -41,6 +41,7 @@ def _common_opts(stdin_path=None, policy='P0', renv=None, wenv=None, sigs=None, 
     if fenv: o += ['--fenv', fenv]
     if senv: o += ['--senv', senv]
     if nprio: o += ['--nprio', str(nprio)]
+    if demote: o += ['--demote', str(demote)]
     if inherit_mask: o += ['--inherit-mask', inherit_mask]
     return o
 
